@@ -127,6 +127,15 @@ impl LengthDelimitedCodec {
     pub fn encode_v2(&self, msg: &Message) -> TcpResult<Vec<u8>> {
         let serialized = bitcode::serialize(msg)?;
 
+        // The receiver applies the limit to the decompressed message, so a message that only
+        // fits after compression would be sent and then rejected by every peer.
+        if serialized.len() > self.max_frame_length {
+            return Err(TcpError::MessageTooLarge {
+                size: serialized.len(),
+                max_size: self.max_frame_length,
+            });
+        }
+
         let (payload, flags) =
             if self.compress_enabled && serialized.len() >= self.compression.min_size {
                 let compressed = compression::compress(&serialized, self.compression.method);
